@@ -274,7 +274,10 @@ class Report:
               "violations": len(self.violations),
               "known_findings_seen": self.known}
         EVID.mkdir(exist_ok=True)
-        (EVID / f"{self.prop}.json").write_text(json.dumps(ev, indent=1, sort_keys=True) + "\n")
+        # a --replay run judges one stored script: its record goes next to the replay files, the evidence of the
+        # last quick / thorough run stays what it is
+        target = (OUT / f"replay-evidence-{self.prop}.json") if os.environ.get("VERIF_REPLAY") else (EVID / f"{self.prop}.json")
+        target.write_text(json.dumps(ev, indent=1, sort_keys=True) + "\n")
         shown = set()
         for key, path, summary in self.violations:
             if (key, str(path)) in shown:
